@@ -87,25 +87,15 @@ pub proof fn fact_item_rules_inspections(items: Vec<Box<dyn SupplyChainItem>>, l
 //@end
 //@extract src/verifylib.rs fn:get_summary_link stub
 //@contract ret=r
-    requires forall|i: int| 0 <= i < layout.steps@.len() ==> reduced_link_files@.contains_key(#[trigger] layout.steps@[i].name),   // [C14]
+//@include contracts/get_summary_link.rs
 //@end
-
-// what a successful final-product verification guarantees (C01, C06, C08)
-pub open spec fn verified(mb: Metablock, keys: Map<KeyId, PublicKey>, dir: Seq<char>) -> bool {
-    owner_gate(mb, keys)
-    && mb.metadata is Layout
-    && steps_verified(mb.metadata->Layout_0, dir)
-    && exists|ins: Map<String, LinkMetadata>, red: Map<String, LinkMetadata>| #![trigger inspections_ran(mb.metadata->Layout_0, ins), inspection_rules_ok(mb.metadata->Layout_0, red)]
-        inspections_ran(mb.metadata->Layout_0, ins) && inspection_rules_ok(mb.metadata->Layout_0, red)
-}
 
 //@extract src/verifylib.rs fn:in_toto_verify props=C01,C06,C08,C15,C14
 //@subst D4 /let steps = layout\s*\.steps\s*\.iter\(\)\s*\.map\(\|step\| Box::new\(step\.clone\(\)\) as Box<dyn SupplyChainItem>\)\s*\.collect\(\);/ => let steps = boxed_steps(&layout.steps);
 //@subst D4 /let inspects = layout\s*\.inspect\s*\.iter\(\)\s*\.map\(\|step\| Box::new\(step\.clone\(\)\) as Box<dyn SupplyChainItem>\)\s*\.collect\(\);/ => let inspects = boxed_inspections(&layout.inspect);
 //@subst D17 /reduced_link_files\.extend\(inspection_link_files\);/ => map_extend(&mut reduced_link_files, inspection_link_files);
 //@contract ret=r
-    requires layout_keys@.len() <= u32::MAX,
-    ensures r is Ok ==> verified(*layout, layout_keys@, link_dir@),   // [C01,C06,C08]
+//@include contracts/in_toto_verify.rs
 //@before /Verify layout signature\(s\) using passed key\(s\) and/
     let ghost mb0 = *layout;
     proof { fact_string_ext(); }
@@ -130,6 +120,7 @@ pub open spec fn verified(mb: Metablock, keys: Map<KeyId, PublicKey>, dir: Seq<c
         fact_item_rules_inspections(inspects, layout, reduced_link_files@);
         assert(mb0.metadata == MetadataWrapper::Layout(layout));
         assert(inspections_ran(mb0.metadata->Layout_0, ins0) && inspection_rules_ok(mb0.metadata->Layout_0, reduced_link_files@));
+        reveal_strlit("");
         assert forall|i: int| 0 <= i < layout.steps@.len() implies reduced_link_files@.contains_key(#[trigger] layout.steps@[i].name) by {
             assert(g1.contains_key(layout.steps@[i].name));
         }
